@@ -235,5 +235,10 @@ def run(R):
                         % (short(bad[0].name).split("::")[-1], bad[0].loc()), [bad[0].loc()])
         else:
             R.ok("C20.comment", "tokenize", "%d emissions / pushes all behind the `not in a comment` edge" % len(emits), tf.loc(csw[0]))
+    # layout: a line break between two operator characters must not fuse them (the same adjacency rule C13 uses for `x - -1`)
+    from . import rules_c13
+    duals_ = [(i, s_) for i, s_ in tf.stmts() if s_["k"] == "assign" and s_["rv"]["k"] == "aggr" and s_["rv"].get("variant") == "Dual"]
+    if duals_:
+        rules_c13.adjacency_rule(R, "C20.adjacent", tf, duals_)
     R.assume("pairs of texts are not compared; whitespace/comment handling is covered only through the absence of location data and the "
              "operator-fusion rule of C13")
